@@ -105,6 +105,7 @@
   a wrong colon is refuted by the value clause); `pai_lines_stored / _more / _get / pai_new_lines` are statements about the
   fold `htLines` and become statements about the parser through `block_pais` and `msg_lists_init`; the sentence "stored
   values of several PAI lines (only the counters)" in the list below is superseded by the PaiLines section above.
+  `msg_lists_*_fl` (`Sipsp.Proofs.AuditFixC`) are the message-level forms that keep the first-line conjunct.
 -/
 import Sipsp.Proofs.NameAddrSpec
 import Sipsp.Proofs.NameAddrSpec2
@@ -112,6 +113,7 @@ import Sipsp.Proofs.HdrTyped
 import Sipsp.Proofs.NaSplit
 import Sipsp.Proofs.PaiLines
 import Sipsp.Proofs.ResumedConverse
+import Sipsp.Proofs.AuditFixC
 
 namespace Sipsp.C09
 open Sipsp
@@ -700,5 +702,20 @@ theorem msg_lists_schedule_init : type_of% @Sipsp.rc_msg_lists_schedule_init := 
     NEW objects after exactly these lines (`htLines` of the piece values), and the header list of `m'` is what accepting
     `hs` produces. -/
 theorem msg_lists_schedule_whole : type_of% @Sipsp.rc_msg_lists_schedule_whole := @Sipsp.rc_msg_lists_schedule_whole
+
+/-! ### message-level list statements that keep the first-line conjunct (proved in `Sipsp.Proofs.AuditFixC`) -/
+
+/-- **ONE call of ParseSIPMsg on an object produced by Init, with the first line**: the statement of `rc_msg_lists_init`,
+    and `o1` — where the header block starts — is the offset ParseFLine (run on a new first-line object at `o`)
+    returns with the verdict OK -/
+theorem msg_lists_init_fl : type_of% @Sipsp.afc_msg_lists_init := @Sipsp.afc_msg_lists_init
+
+/-- **ParseSIPMsg from Init over EVERY chunk schedule, with the first line** (in the buffer `b` of the call that
+    finished, a prefix of the last buffer `B`) -/
+theorem msg_lists_schedule_init_fl : type_of% @Sipsp.afc_msg_lists_schedule_init := @Sipsp.afc_msg_lists_schedule_init
+
+/-- **… stated in the WHOLE buffer `B`, with the first line**: ParseFLine on `B` itself (new first-line object, offset
+    `o`) says OK at `o1`, and `RcBlock B o1 …` -/
+theorem msg_lists_schedule_whole_fl : type_of% @Sipsp.afc_msg_lists_schedule_whole := @Sipsp.afc_msg_lists_schedule_whole
 
 end Sipsp.C09
